@@ -299,6 +299,8 @@ class Engine:
             if dig not in self.vcs:
                 vc = VC(name, self.pc, g, line, fr.key, kind, self.uses)
                 vc.detail = detail
+                if fr.contract is not None and fr.contract.depth is not None:
+                    vc.depth = fr.contract.depth
                 self.vcs[dig] = vc
                 self.order.append(dig)
         else:
@@ -445,6 +447,9 @@ class Engine:
             cd = CLASSES[ty.cls]
             fields = {}
             for f, fty in cd.fields.items():
+                if f in getattr(cd, "consts", {}):
+                    fields[f] = cd.consts[f]
+                    continue
                 if fty == TAny:
                     continue
                 fields[f] = self.fresh_of(name + "." + f, fty, assume_inv)
@@ -1284,7 +1289,7 @@ class Engine:
         n = e.id
         if n in fr.env:
             return fr.env[n]
-        if self.spec_mode:
+        if self.spec_mode or (self.frames and self.frames[0].contract is not None and self.frames[0].contract.body is not None):
             if n in SPEC:
                 return SPEC[n]
             if n in CONSTS:
